@@ -17,7 +17,7 @@ from .ccfg import build_c_cfg, loop_heads
 from .core import AnalysisError
 from .linexpr import Env, IR, Lin, c_ir, py_ir, to_lin
 from .pycfg import Graph, Node, build_py_cfg
-from .pyfacts import Repo, dotted, norm, walk_no_nested
+from .pyfacts import Repo, dotted, inline_optional_classifiers, norm, walk_no_nested
 
 RUN_REL = 'flipjump/interpreter/fjm_run.py'
 READER_REL = 'flipjump/fjm/fjm_reader.py'
@@ -61,7 +61,8 @@ def discover_roles_py(fn: ast.AST) -> Dict[str, str]:
 
 class PyLoop:
     def __init__(self, repo: Repo, fname: str, roles: Dict[str, str]):
-        self.fn = repo.func(RUN_REL, fname)
+        # an extracted "finished? which cause, or None" helper reads like the tests it was extracted from
+        self.fn = inline_optional_classifiers(repo, RUN_REL, repo.func(RUN_REL, fname))
         found = discover_roles_py(self.fn)
         roles = {**roles, **{k: v for k, v in found.items() if k in roles}}
         self.repo, self.fname, self.roles = repo, fname, roles
